@@ -307,6 +307,49 @@ def run(R):
                                  d[1], d[0])
             else:
                 R.traces += 1
+    # named grammars that extend one another: a rule of the parent that the child overrides or merely uses, renamed into
+    # identifiers that begin with words of the inheritance plumbing (super..., ctx..., override..., extends...)
+    INH_BASE = 'grammar @G@\nstart = @Tpl@(@Rule@)\n@Tpl@(x) = [x, x]\n@Rule@ = /[a-z]/\nPair = [@Rule@, "-", @Num@]\n@Num@ = /[0-9]/\n'
+    INH_CHILD = 'grammar @H@ extends @G@\noverride @Rule@ = /[A-Z]/ | super.@Rule@\nTwo = [@Num@, @Num@]\nThree = @Tpl@(@Num@)\n'
+
+    def inh_outcomes(names, tag):
+        nm = dict(names, G='c20inh_a' + tag, H='c20inh_b' + tag)
+        Grammar(instantiate(INH_BASE, nm))
+        h = Grammar(instantiate(INH_CHILD, nm))
+        outs = []
+        for en in (None, 'Pair', 'Two', 'Three', nm['Rule'], nm['Num']):
+            for t in ('aa', 'AA', 'aA', 'a-1', 'A-1', '12', '1', 'a', ''):
+                f = h.parse if en is None else getattr(h, en).parse
+                try:
+                    outs.append(('return', repr(f(t))))
+                except h.PartialParseError as e:
+                    outs.append(('partial', repr(e.partial_result), e.last_position.index))
+                except h.ParseError as e:
+                    outs.append(('error', e.position.index))
+                except Exception as e:          # noqa
+                    outs.append(('exception', type(e).__name__))
+        return outs
+    try:
+        ref_inh = inh_outcomes(PLAIN, '0')
+    except Exception as e:                      # noqa
+        ref_inh = [('construction failed', type(e).__name__)]
+    k = 0
+    for key in ('Rule', 'Num', 'Tpl'):
+        for b in ['supervisor', 'superitem', 'super_x', 'superb', 'ctxitem', 'ctx', 'overrides1', 'extendsx', 'grammarian', 'startle', 'parser', 'parsed', 'tryit', 'try_x',
+                  'context', 'Super', 'SuperItem'] + KEYWORDISH[:6]:
+            k += 1
+            names = {**PLAIN, key: b}
+            R.count('inheritance-renaming', (key, b), nontrivial=True)
+            try:
+                got = inh_outcomes(names, str(k))
+            except Exception as e:              # noqa
+                got = [('construction failed', type(e).__name__ + ': ' + str(e)[:80])]
+            if got != ref_inh:
+                d = next(((x, y) for x, y in zip(got, ref_inh) if x != y), (got[:1], ref_inh[:1]))
+                R.counterexample('inheritance-renaming', f'inherited-rule-name:outcome-changes @ {b}',
+                                 {'base': instantiate(INH_BASE, dict(names, G='A', H='B')), 'child': instantiate(INH_CHILD, dict(names, G='A', H='B')), 'renamed': {key: b}}, d[1], d[0])
+            else:
+                R.traces += 1
     # module level: a name the generator defines on its own account must not have the shape of a name DERIVED from a
     # user name (X, _parse_X, _try_X with X a user identifier), whatever the user names are
     ident = re.compile(r'[A-Za-z][A-Za-z0-9_]*$')
